@@ -150,6 +150,17 @@ def tcp_conn_backlog(rng):
     return head + tail, segs + [tail.hex()]
 
 
+def tcp_conn_flood(rng):
+    """The SAME large query pipelined 100-120 times (5-6 megabytes of responses: more than the largest send queue Linux grows to) by a client that reads nothing until it
+    has sent everything and offers a tiny receive window: the server's send queue fills, so its writes come back
+    short or block; every response must still arrive complete and in order."""
+    q = query(rng, "huge.example", 16)
+    n = rng.randint(100, 120)
+    stream = frame(q) * n
+    segs = [s.hex() for s in cut(rng, stream, rng.choice(["whole", "frames"]))]
+    return stream, segs
+
+
 def table_lookup(keys, transport):
     """Responses of Server::handle_message to each message alone (impl_c30 --table, in-process)."""
     exe = os.path.join(qv.BUILD, "target", "debug", "impl_c30")
@@ -188,8 +199,8 @@ def gen(rng, tier):
     idle = [(a, b, c, [x for x in conns if x[1]] or [(b"\0", ["00"])]) for a, b, c, conns in idle]
     # a client that reads late (responses pile up in the server's send queue)
     for prov in PROVS:
-        for i in range(3 if quick else 30):
-            conns = [tcp_conn_backlog(rng)] if i % 3 != 2 else [tcp_conn(rng, tier) for _ in range(2)]
+        for i in range(4 if quick else 30):
+            conns = [tcp_conn_flood(rng)] if i % 4 == 3 else [tcp_conn_backlog(rng)] if i % 3 != 2 else [tcp_conn(rng, tier) for _ in range(2)]
             conns = [c for c in conns if c[1]] or [(frame(b""), [frame(b"").hex()])]
             plans.append(("tcp", prov, "eofslow", conns))
     n_udp = 18 if quick else 300
